@@ -25,6 +25,17 @@ BUILT = {
             'undefined (division by zero, % of negatives, bitwise on non-integers) are counted as dont_care, not judged. '
             'Candidate violations are confirmed through the real CLI before being reported.',
             'DESIGN.md 3/C07'),
+    'C08': ('model_checking',
+            'explicit-state exploration of directive histories on the real assembler against a reference conditional-stack model',
+            'Every history of preprocessor directives over a 17-symbol alphabet up to depth 4 (thorough 5), and up to depth 5 '
+            '(thorough 6) over a core alphabet, is turned into a program with a unique marker region after each directive and an '
+            'observation suffix, assembled by the real code and compared byte for byte (or rejection for rejection) with the '
+            'reference semantics of the statement. Full tree, stateless re-execution; every explored transition is an execution '
+            'of the implementation.',
+            'Reference model mc/refasm.py. Not judged: #else/#elif after #else, conditions on undefined symbols (requirement '
+            'documents contradict each other), chains open at end of file. #mute is a counter as pinned by the repository tests. '
+            'Candidate violations are confirmed through the real CLI.',
+            'DESIGN.md 3/C08'),
 }
 
 NOT_BUILT_REASON = 'check not built yet (work in progress in this session); no claim made'
